@@ -53,6 +53,13 @@ def spec_cases(tier):
     for f, future in longs:
         for subs, text, defs, top in c09.variants_any(f, 3 if tier == 'quick' else 10):
             out.append((f, defs, top, subs, text, future))
+    # a BARE variable beside a future operator: pastify() has to delay the variable itself; get_value(variable) must stay the supplied data
+    X, Y = F.X, F.Y
+    bare = [('and', ('eventually', (0, 2), X), Y), ('or', Y, ('always', (0, 1), px)), ('-', ('next', X), Y), ('implies', ('eventually', (1, 2), px), X),
+            ('and', ('once', (0, 1), Y), ('next', ('next', X))), ('pred', '>=', ('eventually', (0, 1), X), Y)]
+    for f in bare:
+        for subs, text, defs, top in c09.variants_any(f, 2 if tier == 'quick' else 6):
+            out.append((f, defs, top, subs, text, True))
     return out
 
 
